@@ -39,13 +39,20 @@ Inductive fdiag := DNotFound (p : path) | DNotSlice (p : path) | DDirAsSource (p
                  | DUnreadable (p : path) | DDuplicate (p : path).
 Definition is_error_fdiag (d : fdiag) : bool := match d with DDuplicate _ => false | _ => true end.
 
-(* find_slice_files_in_path / _in_directory: fuel bounds the depth of the walk *)
-Fixpoint walk (fuel : nat) (fs : fsys) (p : path) : list path * list fdiag :=
+(* find_slice_files_in_path / _in_directory.  anc: the identities of the directories being searched (a directory that contains
+   itself through links is not searched again from within itself); fuel bounds the depth of the walk and is never exhausted
+   when it exceeds the number of directories (FilesProofs.walk_fuel_independent) *)
+Fixpoint walk (fuel : nat) (anc : list nat) (fs : fsys) (p : path) : list path * list fdiag :=
   match fuel with O => ([], []) | S f =>
     match kind_of fs p with
-    | KDir => match children_of fs p with
+    | KDir => match canon_of fs p with
               | None => ([], [DUnreadableDir p])
-              | Some cs => fold_left (fun acc c => let r := walk f fs c in (fst acc ++ fst r, snd acc ++ snd r)) cs ([], [])
+              | Some id =>
+                if existsb (Nat.eqb id) anc then ([], [])
+                else match children_of fs p with
+                     | None => ([], [DUnreadableDir p])
+                     | Some cs => fold_left (fun acc c => let r := walk f (id :: anc) fs c in (fst acc ++ fst r, snd acc ++ snd r)) cs ([], [])
+                     end
               end
     | KFile => if is_slice_file p then ([p], []) else ([], [])
     | KNone => ([], [])
@@ -58,7 +65,7 @@ Definition find_slice_files (fuel : nat) (fs : fsys) (paths : list path) (source
     | KNone => (fst acc, snd acc ++ [DNotFound p])
     | KFile => if is_slice_file p then (fst acc ++ [p], snd acc) else (fst acc, snd acc ++ [DNotSlice p])
     | KDir => if source then (fst acc, snd acc ++ [DDirAsSource p])
-              else let r := walk fuel fs p in (fst acc ++ fst r, snd acc ++ snd r)
+              else let r := walk fuel [] fs p in (fst acc ++ fst r, snd acc ++ snd r)
     end in
   let '(found, ds) := fold_left step paths ([], []) in
   fold_left (fun acc p => match canon_of fs p with
